@@ -272,6 +272,15 @@ func (e *Env) ident(name string) TV {
 		if tv, ok := e.ssaVar(name); ok {
 			return tv
 		}
+		if tv, ok := e.phantomLocal(e.frame.fn, name); ok {
+			return tv
+		}
+	}
+	// a callee's local variable, seen from a call site: unknown
+	if e.calleeFn != nil {
+		if tv, ok := e.phantomLocal(e.calleeFn, name); ok {
+			return tv
+		}
 	}
 	// implicit this.field
 	if th, ok := e.vars["this"]; ok {
@@ -572,6 +581,8 @@ func (e *Env) refOf(base TV) Term {
 		return v.Pay
 	case Sc:
 		return v.T
+	case SliceV:
+		return v.Arr
 	}
 	sfail("ghost field on %T", base.V)
 	return Term{}
@@ -725,6 +736,16 @@ func (e *Env) call(x *Expr) TV {
 			sfail("unknown type %s", args[1].Str)
 		}
 		return TV{unbox(e.st, iv, t), t}
+	case "fnid":
+		// identity of a package-level function used as a value
+		if args[0].Op != "str" || e.pkg == nil {
+			sfail("fnid(\"name\")")
+		}
+		sp := e.x.eng.prog.Package(e.pkg)
+		if sp == nil || sp.Func(args[0].Str) == nil {
+			sfail("fnid: no function %s", args[0].Str)
+		}
+		return scInt(closID(e.x.eng.fnVal(sp.Func(args[0].Str))))
 	case "isnil":
 		return scBool(e.specEq(e.eval(args[0]), TV{Sc{IntLit(0)}, types.Typ[types.UntypedNil]}))
 	case "held":
@@ -836,4 +857,28 @@ func (e *Env) ssaVarMaybe(name string) (TV, bool) {
 		return TV{}, false
 	}
 	return e.ssaVar(name)
+}
+
+// phantomLocal: a local variable of fn that has no value on this path (not yet allocated, or the
+// function is a callee seen through its contract): an unconstrained value of its type.
+func (e *Env) phantomLocal(fn *ssa.Function, name string) (TV, bool) {
+	for _, b := range fn.Blocks {
+		for _, in := range b.Instrs {
+			if a, ok := in.(*ssa.Alloc); ok && a.Comment == name {
+				el := a.Type().Underlying().(*types.Pointer).Elem()
+				key := "phantom:" + fn.String() + ":" + name
+				if e.calleeAnch != nil {
+					if an, ok := e.calleeAnch[key]; ok {
+						return TV{an.Rets[0], el}, true
+					}
+				}
+				v := e.st.freshVal(el, "local_"+name)
+				if e.calleeAnch != nil {
+					e.calleeAnch[key] = &Anchor{Rets: []Val{v}}
+				}
+				return TV{v, el}, true
+			}
+		}
+	}
+	return TV{}, false
 }
